@@ -228,22 +228,21 @@ impl TimeMacroFinder {
                     self.previous_small_read = buf;
                 }
 
-                // zero the right side of the buffer
-                self.overlap_buffer[MAX_HAYSTACK_LEN..].copy_from_slice(&[0; MAX_HAYSTACK_LEN]);
-                // Copy the visit to the right of the buffer, starting from the middle
-                self.overlap_buffer[MAX_HAYSTACK_LEN..MAX_HAYSTACK_LEN + visit.len()]
-                    .copy_from_slice(visit);
-
-                // Check both the concatenation with the previous small read
+                // Check the concatenation of the end of the last full read with
+                // the small reads since then. (The overlap buffer must not be
+                // used here: with more than one small read, its two halves
+                // would not be adjacent in the file.)
                 self.find_macros(&self.previous_small_read);
-                // ...and the overlap buffer
-                self.find_macros(&self.overlap_buffer);
                 return;
             } else {
-                // Copy the left side of the visit to the right of the buffer
-                let left_half = MAX_HAYSTACK_LEN;
-                self.overlap_buffer[left_half..].copy_from_slice(&visit[..left_half]);
-                self.find_macros(&self.overlap_buffer);
+                if self.previous_small_read.is_empty() {
+                    // Copy the left side of the visit to the right of the buffer
+                    let left_half = MAX_HAYSTACK_LEN;
+                    self.overlap_buffer[left_half..].copy_from_slice(&visit[..left_half]);
+                    self.find_macros(&self.overlap_buffer);
+                }
+                // Otherwise small reads separate the left half of the buffer
+                // from this visit; their concatenation is checked below.
                 // zero the buffer
                 self.overlap_buffer = Default::default();
                 // Copy the right side of the visit to the left of the buffer
